@@ -17,7 +17,8 @@ CLAIM = dict(
          'INFO: the returned cores are those after exactly info[nswp] >= 1 sweeps (C07_als_sweep_count, '
          'C07_als_func_sweep_count); with only nswp given max(1, nswp) sweeps are executed and reported with stop=nswp '
          '(C07_als_nswp, C07_als_func_nswp); every stop reason is justified by the options (C07_als_stop_reason, '
-         'C07_als_func_stop_reason); a callback returning True after sweep t stops the run right after that sweep at '
+         'C07_als_func_stop_reason); a callback answering with a true value (the model callback is the truthiness of the answer: True / 1 / np.bool_(True) '
+         'stop, False / 0 / None / np.bool_(False) do not - strict in correspondence and search) after sweep t stops the run right after that sweep at '
          'the latest, and with exactly t sweeps and stop=cb when it is the first reason (C07_als_cb_stops, '
          'C07_als_cb_first). '
          'MISSING SLICES: ValueError unless allow_skip_cores, the validation fires exactly on uncovered slices '
@@ -73,8 +74,8 @@ CLAIM = dict(
          'to reject missing slice data as well. '
          'Not modelled: allow_swap=True, update_sol, lamb=None, use_stab, log, info[t], info[r], negative indices; '
          'als_func with n_max set, with a basis wider than the mode size of A0 (unequal mode sizes in the default path) '
-         'or with vector-valued a, b; in the adaptive mode an index pair '
-         'without sample leaves np.empty memory in the code (the model puts 0, the correspondence covers all pairs). '
+         'or with vector-valued a, b. In the adaptive mode an index pair without sample leaves 0 in the two-core '
+         'block, in the code (since c1e64d5) as in the model. '
          'als(nswp=0) executes one sweep (proved). chain 1 Y 1 (matching ranks) is a hypothesis of the '
          'restart / order / descent theorems.',
     technique='Coq proof (interface invariant by induction over the sweep, simulation of the driver loop, ridge '
@@ -157,6 +158,9 @@ Open Scope float_scope.
 '''
 
 STOP = {'nswp': 1, 'e': 2, 'e_vld': 3, 'cb': 4}
+# answers of a callback: true values stop the run, false values do not (als docstring; /repo d12f1ba)
+CB_TRUE = [('True', True), ('1', 1), ('np.bool_(True)', np.bool_(True)), ('np.float64(0.5)', np.float64(0.5))]
+CB_FALSE = [('False', False), ('0', 0), ('None', None), ('np.bool_(False)', np.bool_(False))]
 
 
 # ---------------------------------------------------------------------------------------------- literals
@@ -516,10 +520,13 @@ def stream_als_f(R, ctx, tn):
                 ib = run_als(tn, c, nswp=b, Y0=Ya)
                 add(c, ib, als_f_term(c, None, b, Y0=Ya), 'restart-b', a=a, b=b)
         if t % 3 == 1:
-            # callback returning True after sweep t0 (and a truthy non-True value before: must be ignored)
+            # callback answering with a true value after sweep t0 and with a false value before; the model's callback is the
+            # TRUTHINESS of the answer (documented: "If the callback returns a true value ... stopped")
             t0 = rng.randint(1, 3)
-            ic = run_als(tn, c, nswp=4, cb=lambda Y, info, opts, t0=t0: True if info['nswp'] == t0 else 1)
-            add(c, ic, als_f_term(c, None, 4, t0=t0), 'cb', t0=t0)
+            yes = CB_TRUE[rng.randrange(len(CB_TRUE))]
+            no = CB_FALSE[rng.randrange(len(CB_FALSE))]
+            ic = run_als(tn, c, nswp=4, cb=lambda Y, info, opts, t0=t0, yes=yes, no=no: yes[1] if info['nswp'] == t0 else no[1])
+            add(c, ic, als_f_term(c, None, 4, t0=t0), 'cb', t0=t0, cb_true=yes[0], cb_false=no[0])
         if t % 3 == 2:
             # stop by e: threshold strictly between two recorded accuracy values
             rec = run_als(tn, c, nswp=5, e=None, record=True)
@@ -991,7 +998,21 @@ def oracle_als(tn, c, rng_seed=0):
         ok, why = cores_close(rp.get('cores', []), res['cores'], TOL)
         if not ok:
             return dict(what='result depends on the order of the training samples', got=why, perm=perm)
-    # cb returning True stops right after that sweep
+    # every form of a true answer stops right after that sweep with stop = cb; every form of a false answer never stops
+    for name, val in CB_TRUE:
+        for t0 in (1, 2):
+            rc = run_als(tn, c, nswp=5, cb=lambda Y, info, opts: val if info['nswp'] == t0 else None)
+            if rc.get('nswp') != t0 or rc.get('stop') != STOP['cb']:
+                return dict(what=f'a callback returning the true value {name} after sweep {t0} does not stop the run right after that sweep',
+                            got=[rc.get('nswp'), rc.get('stop')], expected=[t0, STOP['cb']], cb_answer=name)
+            ok, why = cores_close(rc['cores'], seen[t0 - 1][1], 1e-12)
+            if not ok:
+                return dict(what='result after a callback stop differs from the cores after that sweep', got=why, cb_answer=name)
+    for name, val in CB_FALSE:
+        rc = run_als(tn, c, nswp=3, cb=lambda Y, info, opts: val)
+        if rc.get('nswp') != 3 or rc.get('stop') != STOP['nswp']:
+            return dict(what=f'a callback returning the false value {name} stopped the run or changed the stop reason',
+                        got=[rc.get('nswp'), rc.get('stop')], expected=[3, STOP['nswp']], cb_answer=name)
     for t0 in (1, 2):
         rc = run_als(tn, c, nswp=5, cb=lambda Y, info, opts: info['nswp'] == t0)
         if rc['nswp'] != t0 or rc['stop'] != STOP['cb']:
